@@ -350,6 +350,62 @@ def main() -> int:
                             "order of the set of pairs (holders.py _build_digraph)" % sorted(outs))
     ck.notes["k_c03_1_outcomes"] = sorted(outs)
 
+    # ---- S4: roles of generated SQL scripts against the roles computed, by the property's definition, from the SPECIFIED reads and
+    # writes of the statements (Tree/ScriptRoles.v spec_sources / spec_targets / spec_intermediates, evaluated in Coq together
+    # with the guard of c03_script_roles_exact_on_lemma_A_fragment); statements of the whole Lemma-A fragment
+    import astgen
+    import t2tie as _t2
+    rr = rng("c03-roles")
+    pool0 = astgen.gen_batch(rr, 500 if quick else 5000, (0, 1, 2, 2), shapes=60 if quick else None)
+    inside = coq_eval("From SV Require Import Ast.Spec Tree.LemmaA Tree.LemmaAProofs Tree.ScriptRoles.\nOpen Scope string_scope.",
+                      ["if lemA_ok %s then \"1\" else \"0\"" % astgen.g_stmt(x) for x in pool0], shard=250)
+    pool = [x for x, f in zip(pool0, inside) if f == "1"]
+
+    def trefs(x, acc):
+        if isinstance(x, tuple):
+            if len(x) == 3 and x[0] == "table":
+                acc.append(x[1])
+            for y in x:
+                trefs(y, acc)
+        elif isinstance(x, list):
+            for y in x:
+                trefs(y, acc)
+        return acc
+    scripts4 = []
+    for _ in range(110 if quick else 1500):
+        ss = [rr.choice(pool) for _ in range(rr.choice([1, 2, 3, 3, 4]))]
+        read = trefs(ss, [])
+        out = []
+        for st in ss:
+            # let statements write tables that other statements read, so that intermediates and cycles arise
+            if st[0] in ("insert", "ctas", "view") and read and rr.random() < 0.6:
+                st = (st[0], rr.choice(read)) + tuple(st[2:])
+            out.append(st)
+        scripts4.append(out)
+    ex4 = []
+    for ss in scripts4:
+        gl = "; ".join(astgen.g_stmt(x) for x in ss)
+        ex4.append("(if forallb lemA_ok [%s] then \"in:\" else \"out:\") ++ \"R=\" ++ join \",\" (spec_sources \"\" [%s]) ++ \";W=\" ++ "
+                   "join \",\" (spec_targets \"\" [%s]) ++ \";I=\" ++ join \",\" (spec_intermediates \"\" [%s])" % (gl, gl, gl, gl))
+    sp4 = coq_eval("From SV Require Import Ast.Spec Tree.LemmaA Tree.LemmaAProofs Tree.ScriptRoles.\nOpen Scope string_scope.", ex4, shard=120)
+    im4 = _t2.summaries([{"sql": "\n".join(astgen.to_sql(x) for x in ss), "dialect": "ansi", "metadata": None, "config": {}} for ss in scripts4])
+    dist["s4_sql_scripts"] = {"scripts": len(scripts4), "inside_guard": 0, "with_intermediate": 0}
+    for ss, sp, im in zip(scripts4, sp4, im4):
+        ck.count()
+        if not sp.startswith("in:") or im.startswith("ERR"):
+            continue
+        dist["s4_sql_scripts"]["inside_guard"] += 1
+        exp = sp[3:]
+        got = im.split("#", 1)[0]
+        if ";I=" not in got:
+            got += ";I="
+        dist["s4_sql_scripts"]["with_intermediate"] += not exp.endswith(";I=")
+        ck.nontriv(("sql-script-roles", got))
+        if got != exp:
+            spec_failures.append({"suite": "S4-script-roles-vs-specification", "sql": "\n".join(astgen.to_sql(x) for x in ss), "impl_roles": got, "spec_roles": exp,
+                                  "spec": "source / target / intermediate tables follow from the statements' reads and writes by the property's definition "
+                                          "(theorem c03_script_roles_exact_on_lemma_A_fragment)"})
+
     # ---- verdict ------------------------------------------------------------------
     ck.notes["input_distribution"] = dist
     ck.coverage["disagreements_checked"] = len(disagreements)
